@@ -8,7 +8,10 @@ fallback, the content slice `&bytes[..len]` with `len -= sauce.sauce_header_len`
 Also coq/Gen/C02Pal.v: the variants of `enum PaletteFormat` (src/palette_handling.rs) and, for every variant, the class of
 its arm in `Palette::load_palette` and `Palette::export_palette`: 0 = a reader / writer (the five text formats, modelled by
 C16's Model/PaletteFiles.v; gen_palette pins their shape), 1 = refuses (`return Err(..)`; `log::error!(..); Vec::new()`),
-2 = panics (`todo!()`, `unimplemented!()`, `panic!(..)`).  Any other arm is a G failure."""
+2 = panics (`todo!()`, `unimplemented!()`, `panic!(..)`).  Any other arm is a G failure.
+
+fix fB: a census of the statements of the text-loader path that write the font table (font_sources): every font comes from
+BitFont::from_bytes (hypothesis LoadedFont of the text-loader theorems)."""
 import os, re, sys
 sys.path.insert(0, os.path.join(os.path.dirname(__file__), '..'))
 from vlib.rustsrc import TranslateError
@@ -99,7 +102,55 @@ def generate_pal(repo):
                    % (fn, ' | '.join('%s => %d' % (PAL_CTOR[v], arms[fn][v]) for v in variants)))
     return '\n'.join(out) + '\n'
 
+# ---- fix fB: where a text loader gets the fonts of its buffer from ---------------------------------------------------------------
+# Proofs/FileLoadProofs.v LoadedFont: "the size of font 0 is the size of a font BitFont::from_bytes returned".  Pinned here: every
+# statement of the text-loader path (Buffer::new, set_sauce, the parsers, the eight text loaders) that puts a font into the font table
+# takes it from BitFont::from_bytes - directly or through default() / from_ansi_font_page / from_sauce_name, whose arms are from_bytes
+# calls on built-in data.  A new way of installing a font is a G failure (the hypothesis SaneOracle would no longer be about all fonts).
+FONT_WRITERS = r'\b(set_font|set_font_table|append_font|remove_font|clear_font_table|font_iter_mut)\s*\('
+def _code(path):
+    """source text without comments and without the test module at the end"""
+    t = open(path, encoding='utf-8', errors='replace').read()
+    t = re.sub(r'//[^\n]*', '', t)
+    k = t.find('#[cfg(test)]')
+    return re.sub(r'\s+', ' ', t if k < 0 else t[:k])
+
+def font_sources(repo):
+    src = os.path.join(repo, 'src')
+    def need(cond, msg):
+        if not cond: raise TranslateError('font sources of the text loaders: ' + msg)
+    fonts = _code(os.path.join(src, 'fonts.rs'))
+    need('impl Default for BitFont { fn default() -> Self { BitFont::from_ansi_font_page(0).unwrap() } }' in fonts, 'BitFont::default() is no longer from_ansi_font_page(0)')
+    need('pub fn from_ansi_font_page(font_page: usize) -> EngineResult<Self> { match font_page { $( $( $font_slot => {BitFont::from_bytes($name, $i)} )? )* '
+         '_ => Err(ParserError::UnsupportedFont(font_page).into()), } }' in fonts, 'from_ansi_font_page: an arm is no longer BitFont::from_bytes on built-in data')
+    need('pub fn from_sauce_name(sauce_name: &str) -> EngineResult<Self> { match sauce_name { $( $name => {BitFont::from_bytes($name, $i)} )* '
+         '_ => Err(ParserError::UnsupportedSauceFont(sauce_name.to_string()).into()), } }' in fonts, 'from_sauce_name: an arm is no longer BitFont::from_bytes on built-in data')
+    bufs = _code(os.path.join(src, 'buffers.rs'))
+    need('let mut font_table = HashMap::new(); font_table.insert(0, BitFont::default());' in bufs, 'Buffer::new no longer starts with BitFont::default() in slot 0')
+    need('if let Ok(font) = BitFont::from_sauce_name(font) { self.set_font(0, font); }' in bufs, 'set_sauce no longer takes font 0 from BitFont::from_sauce_name')
+    need('pub fn get_font_dimensions(&self) -> Size { self.font_table[&0].size }' in bufs, 'get_font_dimensions is no longer the size of font 0')
+    want = {'parsers/ansi/dcs.rs': ['match BitFont::from_bytes(format!("custom font {num}"), &font_data) { Ok(font) => { log::info!("loaded custom font {num}", num = num); buf.set_font(num, font);'],
+            'parsers/ansi/ansi_commands.rs': ['match BitFont::from_ansi_font_page(nr) { Ok(font) => { set_font_selection_success(buf, caret, nr); buf.set_font(nr, font); }'],
+            'formats/seq.rs': ['result.clear_font_table(); result.set_font(0, BitFont::from_bytes("", C64_UPPER).unwrap()); result.set_font(1, BitFont::from_bytes("", C64_LOWER).unwrap());'],
+            'formats/atascii.rs': ['result.clear_font_table(); let mut font = BitFont::from_bytes("", ATARI).unwrap(); font.length = 128; result.set_font(0, font);']}
+    files = []
+    for root, _, names in os.walk(os.path.join(src, 'parsers')):
+        files += [os.path.join(root, n) for n in names if n.endswith('.rs')]
+    files += [os.path.join(src, 'formats', n) for n in ('mod.rs', 'ansi.rs', 'avatar.rs', 'pcboard.rs', 'ascii.rs', 'ctrla.rs', 'renegade.rs', 'seq.rs', 'atascii.rs')]
+    for f in sorted(files):
+        rel = os.path.relpath(f, src)
+        t = _code(f)
+        n = len(re.findall(FONT_WRITERS, t))
+        pins = want.get(rel, [])
+        for pin in pins:
+            need(pin in t, '%s no longer contains `%s`' % (rel, pin))
+        expect = sum(len(re.findall(FONT_WRITERS, pin)) for pin in pins)
+        need(n == expect, '%s writes the font table %d times, %d are modelled (every font of a text-loaded buffer must come from BitFont::from_bytes)' % (rel, n, expect))
+        need(not re.search(r'\bfont\w*\.size\b[^=;]*=[^=]', t), '%s assigns the size of a font' % rel)
+    return len(files)
+
 def generate(repo):
+    font_sources(repo)
     buf = open(os.path.join(repo, 'src/buffers.rs')).read()
     body = fn_body(buf, 'from_bytes')
     if body is None or not DISPATCH.search(body):
